@@ -32,6 +32,8 @@ def run(chk):
         import source_tie
         source_tie.report(chk, source_tie.circuit_tie(chk), "circuit",
                           "breaker histories, policy-level scripts and interleavings: no property violation found")
+        source_tie.report(chk, source_tie.policy_tie(chk), "policy",
+                          "breaker histories, policy-level scripts and interleavings: no property violation found")
 
 
 def replay(path):
